@@ -43,6 +43,8 @@ type World struct {
 	fx    *lib.Token
 	base  sdk.Context // branch of the block context with the world prepared; never written back
 	basePeriod uint64 // distribution period of validator 1 in base
+	okClaims    []uint64 // event nonces of pending claims that execute (SendToFx of FX to a fresh receiver)
+	panicClaims []uint64 // event nonces of pending bridge-call results whose call no longer exists
 	tok        *lib.Token // a registered user-owned ERC-20 whose code the harness replaces per tree (hostile transferFrom)
 }
 
@@ -75,6 +77,7 @@ func NewWorld(seed int64) *World {
 			panic("unexpected pool id")
 		}
 	}
+	w.setupClaims(seed)
 	tok, err := c.SetupExternal("HST", 77, w.owner, []string{"eth"})
 	lib.Must(err)
 	w.tok = tok
@@ -84,6 +87,48 @@ func NewWorld(seed int64) *World {
 	w.basePeriod = w.period(w.base)
 	w.probeRewards()
 	return w
+}
+
+const nClaims = 6
+
+func claimAmount(nonce uint64) int64 { return 30_000 + int64(nonce) }
+
+// setupClaims: one oracle with all the power observes (through the real MsgServer.Claim -> Attest path) six deposits
+// of FX to fresh receivers and six results of outgoing bridge calls that no longer exist (what a result arriving
+// after the call timed out and was refunded leaves behind). Observed SendToFx / BridgeCallResult claims are parked
+// as pending and wait for executeClaim.
+func (w *World) setupClaims(seed int64) {
+	c := w.c
+	x := c.X("eth")
+	x.SetupOracles([]int64{10000})
+	o := x.Oracles[0]
+	fxContract := w.fx.Alias("eth").Contract
+	nonce := uint64(0)
+	for i := 0; i < nClaims; i++ {
+		nonce++
+		n := nonce
+		if err := x.Claim(o, &crosschaintypes.MsgSendToFxClaim{EventNonce: n, BlockHeight: 1000 + n, TokenContract: fxContract,
+			Amount: sdkmath.NewInt(claimAmount(n)), Sender: lib.ExternalAccount(seed, "eth", 700+i),
+			Receiver: sdk.AccAddress(markerSpender(20_000 + int(n)).Bytes()).String()}); err != nil {
+			panic(fmt.Sprintf("setup SendToFx claim: %v", err))
+		}
+		w.okClaims = append(w.okClaims, n)
+	}
+	for i := 0; i < nClaims; i++ {
+		nonce++
+		n := nonce
+		cl := &crosschaintypes.MsgBridgeCallResultClaim{EventNonce: n, BlockHeight: 1000 + n, Nonce: 9_000_000 + n,
+			TxOrigin: lib.ExternalAccount(seed, "eth", 800+i), Success: true}
+		if err := x.Claim(o, cl); err != nil {
+			panic(fmt.Sprintf("setup BridgeCallResult claim: %v", err))
+		}
+		w.panicClaims = append(w.panicClaims, n)
+	}
+	for _, n := range append(append([]uint64{}, w.okClaims...), w.panicClaims...) {
+		if _, found := c.App.EthKeeper.GetPendingExecuteClaim(c.Ctx, n); !found {
+			panic(fmt.Sprintf("claim %d is not pending after its attestation", n))
+		}
+	}
 }
 
 func (w *World) period(ctx sdk.Context) uint64 {
@@ -156,6 +201,9 @@ func (w *World) fill(m *Marker) {
 		m.Target = lib.CrosschainPrecompile
 		m.Value = amountOfBit(m.Bit)
 		m.Data, err = xabi.Pack("increaseBridgeFee", "eth", big.NewInt(poolID(m.Ctx)), common.Address{}, m.Value)
+	case MkExecClaim, MkExecPanic:
+		m.Target = lib.CrosschainPrecompile
+		m.Data, err = xabi.Pack("executeClaim", "eth", new(big.Int).SetUint64(m.Claim))
 	case MkTokenCB:
 		m.Target = lib.CrosschainPrecompile
 		m.Data, err = xabi.Pack("crossChain", w.tok.ERC20, lib.ExternalAccount(w.c.Seed, "eth", m.ID),
@@ -178,7 +226,8 @@ func (w *World) fill(m *Marker) {
 
 type Observed struct {
 	Failed   bool              `json:"failed"`
-	Refused  bool              `json:"refused"` // ApplyMessage refused the message (gas below intrinsic): nothing ran
+	Refused  bool              `json:"refused"` // ApplyMessage did not return a result (gas below intrinsic, or a Go panic): nothing is committed
+	Aborted  bool              `json:"aborted"` // ... because Go code panicked
 	VmError  string            `json:"vm_error"`
 	GasUsed  uint64            `json:"gas_used"`
 	Natives  []int             `json:"natives"` // marker ids whose native effect is present (sorted)
@@ -240,6 +289,15 @@ func (w *World) observeNatives(ctx sdk.Context, ms []*Marker, ctxs []int) (prese
 	}
 	for _, m := range ms {
 		switch m.Kind {
+		case MkExecClaim:
+			if _, pending := w.c.App.EthKeeper.GetPendingExecuteClaim(ctx, m.Claim); !pending {
+				present = append(present, m.ID)
+			}
+		case MkExecPanic:
+			if _, pending := w.c.App.EthKeeper.GetPendingExecuteClaim(ctx, m.Claim); !pending {
+				present = append(present, m.ID)
+				leaks = append(leaks, fmt.Sprintf("marker %d: the pending claim %d was deleted by an executeClaim that did not complete", m.ID, m.Claim))
+			}
 		case MkInnerApprove:
 			if w.allowance(ctx, w.val0, m.Owner.Bytes(), markerSpender(m.ID).Bytes()).Sign() != 0 {
 				present = append(present, m.ID)
@@ -343,6 +401,8 @@ func eventMarkers(evs sdk.Events, ms []*Marker) []int {
 			byAmount[fmt.Sprintf("%d%s", 1000+m.ID, tokenBase)] = m.ID
 		case MkBridgeCall, MkIncreaseFee:
 			byAmount[m.Value.String()+fxtypes.DefaultDenom] = m.ID
+		case MkExecClaim:
+			byAmount[fmt.Sprint(claimAmount(m.Claim))+fxtypes.DefaultDenom] = m.ID
 		case MkCancel:
 			byCancel[fmt.Sprint(poolID(m.Ctx))] = m.ID
 		}
